@@ -33,8 +33,9 @@ CONSTANTS
   Kinds = {%(kinds)s}
   FragFormats = {"f1"}
   DevCountFramesOnly = %(dev)s
+  DevSharedScratch = %(dev2)s
 INVARIANTS TypeOK PropAccounted PropExact PropAllReceived PropStoppedQuiet
-PROPERTIES StepOnlyOrder StepSkipOnlyWhenFull StepNoCallbackAfterEnd
+PROPERTIES StepUnmodified StepOnlyOrder StepSkipOnlyWhenFull StepNoCallbackAfterEnd
 CHECK_DEADLOCK FALSE
 """
 
@@ -51,6 +52,7 @@ CONSTANTS
   Kinds = {%(kinds)s}
   FragFormats = {"f1"}
   DevCountFramesOnly = FALSE
+  DevSharedScratch = FALSE
 INVARIANT EmitRuns
 CHECK_DEADLOCK FALSE
 """
@@ -68,6 +70,7 @@ CONSTANTS
   Kinds = {"frame"}
   FragFormats = {"f1"}
   DevCountFramesOnly = FALSE
+  DevSharedScratch = FALSE
 VIEW ImplView
 CHECK_DEADLOCK FALSE
 """
@@ -157,7 +160,7 @@ def run(ctx):
     o1 = ctx.path("replay.ndjson")
     o2 = ctx.path("stress.ndjson")
     vf.overlay(ctx)
-    both, frame = '"frame","frag"', '"frame"'
+    both, frame, video = '"frame","frag"', '"frame"', '"frame","key","aud"'
     # ---- MC: layer 1 |= layer 2 on the bounded model.  (readers, nss, qs, writes/format, stale, eager, unit kinds)
     mcs = ctx.pick(
         [('"r1"', 2, "1,2,4", 3, 2, "FALSE", both),    # one reader, lock granularity, all queue sizes, units with/without payload
@@ -166,18 +169,22 @@ def run(ctx):
          (two, 2, "1", 3, 1, "FALSE", frame),
          (two, 2, "2", 2, 1, "FALSE", frame),
          (two, 1, "1", 2, 0, "FALSE", both),
+         ('"r1"', 1, "1,2", 3, 0, "FALSE", video),
          (two, 2, "1,2,4", 3, 1, "TRUE", frame)])
     # ---- GEN: behaviours of the Eager granularity, by TLC simulation (and, thorough, an edge cover of the state graph)
     # (nss, qs, writes/format, stale, behaviours, unit kinds); with both kinds the replay uses a publisher that writes
     # RTP packets (UseRTPPackets) and "frag" = a packet that does not complete a frame (unit without payload)
-    gens = ctx.pick([(2, "1,2", 3, 1, 260, frame), (2, "1,4", 5, 2, 140, frame), (1, "1,2", 4, 0, 160, both)],
+    # with frame/key/aud the replay uses H264 + H265 in payload mode (both unit remuxers; key: in-band sets are
+    # stripped and the current ones injected, aud: a delimiter is stripped) and compares contents
+    gens = ctx.pick([(2, "1,2", 3, 1, 220, frame), (2, "1,4", 5, 2, 100, frame), (1, "1,2", 4, 0, 140, both),
+                     (1, "1,2,4", 4, 0, 140, video)],
                     [(2, "1,2,4", 3, 2, 2500, frame), (2, "1,2", 5, 2, 1500, frame), (2, "4,8", 9, 2, 1000, frame),
-                     (1, "1,2,4", 5, 0, 1500, both)])
+                     (1, "1,2,4", 5, 0, 1500, both), (1, "1,2,4", 5, 0, 1500, video)])
     jobs = []
     mcnames = []
     for i, (rd, nss, qs, mw, ms, eager, kinds) in enumerate(mcs):
         name = _cfg(ctx, "Stream_mc_%d.cfg" % i, MC_CFG % dict(readers=rd, nss=nss, qs=qs, mw=mw, ms=ms, eager=eager,
-                                                                 kinds=kinds, dev="FALSE"))
+                                                                 kinds=kinds, dev="FALSE", dev2="FALSE"))
         mcnames.append(name)
         jobs.append(lambda name=name: vf.tlc(ctx, "Stream", name, workers=ctx.pick(6, 8), timeout=1500,
                                              java_opts=["-Xmx8g"]))
@@ -216,16 +223,23 @@ def run(ctx):
     if ctx.thorough:
         # sanity of the model: with the named deviation DevCountFramesOnly the statement must be violated
         name = _cfg(ctx, "Stream_dev.cfg", MC_CFG % dict(readers='"r1"', nss=1, qs="1", mw=3, ms=0, eager="FALSE",
-                                                         kinds=both, dev="TRUE"))
+                                                         kinds=both, dev="TRUE", dev2="FALSE"))
         r = vf.tlc(ctx, "Stream", name, workers=2, timeout=600, allow_violation=True)
         if not r.violated:
             raise vf.Infra("Stream.tla with DevCountFramesOnly=TRUE satisfies the statement: the model cannot see uncounted drops")
         ctx.set("deviation_DevCountFramesOnly_violates", r.violated)
+        name = _cfg(ctx, "Stream_dev2.cfg", MC_CFG % dict(readers='"r1"', nss=1, qs="1,2", mw=3, ms=0, eager="FALSE",
+                                                          kinds=frame, dev="FALSE", dev2="TRUE"))
+        r = vf.tlc(ctx, "Stream", name, workers=2, timeout=600, allow_violation=True)
+        if not r.violated:
+            raise vf.Infra("Stream.tla with DevSharedScratch=TRUE satisfies the statement: the model cannot see altered content")
+        ctx.set("deviation_DevSharedScratch_violates", r.violated)
     ctx.set("exhaustive", True)
     cases = []
     for g, r in zip(gens, res[len(mcs):len(mcs) + len(gens)]):
         for x in r.tagged("RUN"):
-            cases.append({"run": len(cases), "q": x["q"], "src": "simulate", "rtp": g[5] == both, "acts": x["acts"]})
+            cases.append({"run": len(cases), "q": x["q"], "src": "simulate", "rtp": g[5] == both, "video": g[5] == video,
+                          "acts": x["acts"]})
     nsim = len(cases)
     if nsim < 50:
         raise vf.Infra("generator produced only %d behaviours" % nsim)
@@ -234,7 +248,7 @@ def run(ctx):
         for ws, c, t in res[len(mcs) + len(gens) + 1:]:
             covered, total = covered + c, total + t
             for q, w in ws:
-                cases.append({"run": len(cases), "q": q, "src": "edgecover", "rtp": False, "acts": [_act_from_label(lab) for lab, _ in w]})
+                cases.append({"run": len(cases), "q": q, "src": "edgecover", "rtp": False, "video": False, "acts": [_act_from_label(lab) for lab, _ in w]})
         ctx.set("graph_edges_covered", covered)
         ctx.set("graph_edges_total", total)
     cf = vf.write_ndjson(ctx.path("cases.ndjson"), cases)
@@ -260,12 +274,13 @@ def run(ctx):
         for bad in tv.tagged("BAD"):
             rec = part[bad["l"] - 1]
             acts = _compact(rec["steps"][:-1])
-            ctx.violation({"monitor": bad["monitor"], "mode": "replay", "q": rec["q"], "aa": rec["aa"], "rtp": rec["rtp"], "acts": acts},
-                          "%s is false on the real Stream (WriteQueueSize=%d, alwaysAvailable=%s, RTP publisher=%s) "
+            ctx.violation({"monitor": bad["monitor"], "mode": "replay", "q": rec["q"], "aa": rec["aa"], "rtp": rec["rtp"], "video": rec["video"],
+                           "acts": acts},
+                          "%s is false on the real Stream (WriteQueueSize=%d, alwaysAvailable=%s, RTP publisher=%s, H264/H265 payloads=%s) "
                           "for the schedule [%s] (~ = unit without payload); "
                           "observed per step (callbacks begun, discard counters): %s"
-                          % (bad["monitor"], rec["q"], rec["aa"], rec["rtp"], acts,
-                             [[(c["r"], c["f"], c["pay"][4:6]) for c in s["cbs"]] + [s["disc"]] for s in rec["steps"]]))
+                          % (bad["monitor"], rec["q"], rec["aa"], rec["rtp"], rec["video"], acts,
+                             [[(c["r"], c["f"], c["w"]) for c in s["cbs"]] + [s["disc"]] for s in rec["steps"]]))
         drift[0] += len(tv.tagged("DRIFT"))
 
     def tv_stress_chunk(i, part):
@@ -277,7 +292,7 @@ def run(ctx):
         for bad in tv.tagged("BAD"):
             rec = part[bad["l"] - 1]
             lf = [x for x in rec["lives"] if x["id"] == bad["life"]][0]
-            ctx.violation({"monitor": bad["monitor"], "mode": "stress", "q": rec["q"], "aa": rec["aa"], "rtp": rec["rtp"],
+            ctx.violation({"monitor": bad["monitor"], "mode": "stress", "q": rec["q"], "aa": rec["aa"], "rtp": rec["rtp"], "video": rec["video"],
                            "foreign": rec["foreign"]},
                           "%s is false in stress round %d (WriteQueueSize=%d, alwaysAvailable=%s) for reader life %d: subs=%s "
                           "add=[%d,%d] remove=[%d,%d] discarded=%d callbacks=%d failed=%s first callbacks %s"
@@ -308,6 +323,8 @@ def run(ctx):
     ctx.set("replayed_steps", sum(len(r["steps"]) for r in recs))
     ctx.set("replay_callbacks_observed", sum(len(s["cbs"]) for r in recs for s in r["steps"]))
     ctx.set("replayed_with_rtp_publisher", sum(1 for r in recs if r["rtp"]))
+    ctx.set("replayed_with_h264_h265_payloads", sum(1 for r in recs if r["video"]))
+    ctx.set("replay_contents_compared", sum(len(s["cbs"]) + len(s["rels"]) for r in recs for s in r["steps"]))
     ctx.set("replay_payloadless_units_written", sum(1 for r in recs for s in r["steps"] if s["a"] == "Write" and s["k"] == "frag"
                                                    and not s["skipped"]))
     ctx.set("replay_discards_observed", sum(max(0, v) for r in recs for v in r["steps"][-1]["disc"].values()))
